@@ -225,6 +225,8 @@ class World:
         self.ps = ps
         if self.mode == "native":
             return self._native_build(ps)
+        if self.mode == "passthrough":
+            return self._passthrough_build(ps)
         b = symfs.ModelBackend(ps.decide)
         b.files = dict(self.F0.b.files)
         b.dirs = dict(self.F0.b.dirs)
@@ -339,6 +341,52 @@ class World:
                 out.append(k)
         return out
 
+    def _passthrough_build(self, ps):
+        """Same shimmed module as the model, but over the real OS below a scratch root; the (pinned) pre-state is
+        constructed by an API history, extra directories by mkdir."""
+        self.cleanup()
+        self.scratch = scratch_root()
+        rb = symfs.RealBackend(self.scratch)
+        F = symfs.FS(rb, blksize=self.blksize)
+        F.env = dict(self.F0.env)
+        self.shim.fs = F
+        rb.mkdir1("/src")
+        for k, c in enumerate(self.contents):
+            rb.create("/src/c%d" % k, c)
+        for v, d in enumerate(self.docs):
+            rb.create("/src/d%d" % v, d)
+        s = self.M.FileHashStore(self.props("/s"))
+        hist = []
+        bindv = [ps.choose(self.bind[i], -1, self.NC) for i in range(self.NP)]
+        for j in range(self.NC):
+            if self.OBJ[j] and ps.decide(self.obj[j]):
+                s.store_object(None, "/src/c%d" % j)
+                hist.append("store_object(None, c%d)" % j)
+        for j in range(self.NC):
+            mem = [i for i in range(self.NP) if bindv[i] == j]
+            if mem:
+                ps.constrain(self.ordv[j] < math.factorial(len(mem)))
+                r = ps.choose(self.ordv[j], 0, math.factorial(len(mem)))
+                for i in list(itertools.permutations(mem))[r]:
+                    s.tag_object(self.pids[i], self.cids[j])
+                    hist.append("tag_object(%r, cid%d)" % (self.pids[i], j))
+        for i in range(self.NP):
+            for f in range(self.NF):
+                v = ps.choose(self.meta[i][f], -1, self.ND)
+                if v >= 0:
+                    s.store_metadata(self.pids[i], "/src/d%d" % v, self.eff[f])
+                    hist.append("store_metadata(%r, d%d, %r)" % (self.pids[i], v, self.eff[f]))
+        for d, v in self.dirv.items():
+            if ps.decide(v):
+                os.makedirs(self.scratch + d, exist_ok=True)
+        self.history = hist
+        F2 = symfs.FS(rb, blksize=self.blksize)     # fresh counters for the call under test
+        F2.env = dict(self.F0.env)
+        self.shim.fs = F2
+        self.F = F2
+        self.initial = {}
+        return F2
+
     def cleanup(self):
         if self.scratch and os.path.isdir(self.scratch):
             shutil.rmtree(self.scratch, ignore_errors=True)
@@ -360,7 +408,7 @@ class World:
         return self.nb if self.mode == "native" else self.F.b
 
     def _untouched(self, path):
-        if self.mode == "native":
+        if self.mode != "model":
             return False
         return self.F.b.files.get(path) is self.initial.get(path)
 
@@ -436,8 +484,8 @@ class World:
         known = set(self.PIDREF) | set(self.CIDREF) | set(o for o in self.OBJ if o) | \
             set(m for r in self.META for m in r)
         root = "/s"
-        if self.mode == "native":
-            snap = b.snapshot(root)
+        if self.mode != "model":
+            snap = b.snapshot(root + "/")
         else:
             snap = {k: None for k, e in b.files.items()
                     if k.startswith(root + "/") and k not in known and b.isfile(k)}
